@@ -78,8 +78,9 @@ def from_example(name):
     cwd = os.getcwd()
     os.chdir(wd)
     try:
-        if "/repo" not in sys.path:
-            sys.path.insert(0, "/repo")
+        from ..hd import REPO
+        if REPO not in sys.path:
+            sys.path.insert(0, REPO)
         with contextlib.redirect_stdout(io.StringIO()):
             importlib.import_module(f"examples.{name}").main()
     except Exception:
